@@ -376,6 +376,8 @@ class TransferFrame:
         # frame minus 1. Also check whether this is a regular header and not a truncated one,
         # as the truncated one does not have the frame length field
         if isinstance(self.header, PrimaryHeader):
+            if self.len() - 1 > 0xFFFF:
+                raise ValueError("frame too large for the 16 bit frame length field")
             self.header.frame_len = self.len() - 1
 
     def len(self):
